@@ -101,6 +101,14 @@ impl Polytope {
     /// s.t. self.mat @ x <= self.bias
     #[cfg(feature = "minilp")]
     pub fn solve_linprog(&self, coeffs: Array1<f64>, _verbose: bool) -> PolytopeStatus {
+        // Verification hook (fault injection at the LP boundary); compiled only with
+        // `--cfg affinitree_verif`, absent from normal builds.
+        #[cfg(affinitree_verif)]
+        {
+            if let Some(fault) = verif_hook::next_fault() {
+                return verif_hook::apply(self, &coeffs, _verbose, fault);
+            }
+        }
         let problem = self.as_linprog(coeffs);
         let pb = problem.solver;
         let vars = problem.vars;
@@ -219,6 +227,152 @@ impl Polytope {
                 PolytopeStatus::Optimal(solution_f64)
             }
         }
+    }
+}
+
+/// Fault injection for the LP layer, used by external verification harnesses.
+///
+/// Compiled only with `--cfg affinitree_verif`. A thread-local plan maps the index of a call to
+/// [`Polytope::solve_linprog`] (counted per thread since the last [`reset`]) to a [`Fault`]; calls
+/// without an entry behave normally. Every call is logged.
+#[cfg(all(affinitree_verif, feature = "minilp"))]
+pub mod verif_hook {
+    use std::cell::RefCell;
+    use std::collections::BTreeMap;
+
+    use ndarray::Array1;
+
+    use super::{Polytope, PolytopeStatus};
+
+    #[derive(Clone, Debug, PartialEq)]
+    pub enum Fault {
+        /// The backend reports an error.
+        Error(String),
+        /// The backend reports an unbounded problem.
+        Unbounded,
+        /// The backend returns an 'optimal' point that violates row `row` by `eps` (raw distance).
+        Perturb { row: usize, eps: f64 },
+        /// The backend returns an 'optimal' point that is far away from the polytope.
+        FarOff { scale: f64 },
+    }
+
+    #[derive(Clone, Debug, PartialEq)]
+    pub struct CallRecord {
+        pub index: usize,
+        pub n_rows: usize,
+        /// the fault planned for this call, if any
+        pub fault: Option<Fault>,
+        /// true if the answer handed to the caller differs from the real one
+        pub changed: bool,
+    }
+
+    #[derive(Default)]
+    struct State {
+        counter: usize,
+        plan: BTreeMap<usize, Fault>,
+        log: Vec<CallRecord>,
+        suspended: bool,
+    }
+
+    thread_local! {
+        static STATE: RefCell<State> = RefCell::new(State::default());
+    }
+
+    /// Clears counter, plan and log.
+    pub fn reset() {
+        STATE.with(|s| *s.borrow_mut() = State::default());
+    }
+
+    /// Installs a plan (call index -> fault) and restarts counting.
+    pub fn set_plan(plan: BTreeMap<usize, Fault>) {
+        STATE.with(|s| {
+            let mut s = s.borrow_mut();
+            s.counter = 0;
+            s.log.clear();
+            s.plan = plan;
+        });
+    }
+
+    /// Number of calls seen since the last reset / set_plan.
+    pub fn calls() -> usize {
+        STATE.with(|s| s.borrow().counter)
+    }
+
+    pub fn take_log() -> Vec<CallRecord> {
+        STATE.with(|s| std::mem::take(&mut s.borrow_mut().log))
+    }
+
+    /// Counts the call; returns the planned fault for it, if any.
+    pub(super) fn next_fault() -> Option<Fault> {
+        STATE.with(|s| {
+            let mut s = s.borrow_mut();
+            if s.suspended {
+                return None;
+            }
+            let index = s.counter;
+            s.counter += 1;
+            let fault = s.plan.get(&index).cloned();
+            if fault.is_none() {
+                s.log.push(CallRecord {
+                    index,
+                    n_rows: 0,
+                    fault: None,
+                    changed: false,
+                });
+            }
+            fault
+        })
+    }
+
+    fn real(poly: &Polytope, coeffs: &Array1<f64>, verbose: bool) -> PolytopeStatus {
+        STATE.with(|s| s.borrow_mut().suspended = true);
+        let r = poly.solve_linprog(coeffs.clone(), verbose);
+        STATE.with(|s| s.borrow_mut().suspended = false);
+        r
+    }
+
+    pub(super) fn apply(
+        poly: &Polytope,
+        coeffs: &Array1<f64>,
+        verbose: bool,
+        fault: Fault,
+    ) -> PolytopeStatus {
+        let truth = real(poly, coeffs, verbose);
+        let answer = match (&fault, &truth) {
+            (Fault::Error(msg), _) => PolytopeStatus::Error(msg.clone()),
+            (Fault::Unbounded, _) => PolytopeStatus::Unbounded,
+            (Fault::Perturb { row, eps }, PolytopeStatus::Optimal(x)) if poly.n_constraints() > 0 => {
+                let r = row % poly.n_constraints();
+                let a = poly.mat.row(r);
+                let norm2 = a.dot(&a);
+                if norm2 > 0.0 {
+                    let step = (poly.bias[r] - a.dot(x) + eps) / norm2;
+                    PolytopeStatus::Optimal(x + &(&a * step))
+                } else {
+                    truth.clone()
+                }
+            }
+            (Fault::FarOff { scale }, PolytopeStatus::Optimal(x)) => {
+                let mut y = x.clone();
+                for (i, v) in y.iter_mut().enumerate() {
+                    *v += scale * (1.0 + i as f64);
+                }
+                PolytopeStatus::Optimal(y)
+            }
+            _ => truth.clone(),
+        };
+        let changed = answer != truth;
+        STATE.with(|s| {
+            let mut s = s.borrow_mut();
+            let index = s.counter - 1;
+            s.log.push(CallRecord {
+                index,
+                n_rows: poly.n_constraints(),
+                fault: Some(fault),
+                changed,
+            });
+        });
+        answer
     }
 }
 
